@@ -35,11 +35,11 @@ package utils
 
 //@ func NewProxyWriterWithLogger
 //@   props C20 C05 C18
-//@   ensures fresh_forwarder: result != nil && fresh(result) && result.w == w && result.code == 0 && result.length == 0
+//@   ensures fresh_forwarder: result != nil && fresh(result) && result.w == w && result.code == 0 && result.length == 0 && result.log == l
 
 //@ func NewProxyWriter
 //@   props C20
-//@   ensures fresh_forwarder: result != nil && fresh(result) && result.w == w && result.code == 0 && result.length == 0
+//@   ensures fresh_forwarder: result != nil && fresh(result) && result.w == w && result.code == 0 && result.length == 0 && result.log != nil
 
 //@ func (*ProxyWriter).StatusCode
 //@   props C20 C18
@@ -114,6 +114,7 @@ package utils
 //@   ensures ipv4: !prefixof("[", req.RemoteAddr) && indexof(req.RemoteAddr, ":") >= 1 && !contains(substr(req.RemoteAddr, indexof(req.RemoteAddr, ":") + 1, strlen(req.RemoteAddr)), ":") && !contains(req.RemoteAddr, "[") && !contains(req.RemoteAddr, "]") ==> result2 == nil && result0 == substr(req.RemoteAddr, 0, indexof(req.RemoteAddr, ":"))
 //@   ensures ipv6: prefixof("[", req.RemoteAddr) && indexof(req.RemoteAddr, "]") >= 2 && substr(req.RemoteAddr, indexof(req.RemoteAddr, "]") + 1, 1) == ":" && !contains(substr(req.RemoteAddr, 1, indexof(req.RemoteAddr, "]") - 1), "[") && !contains(substr(req.RemoteAddr, indexof(req.RemoteAddr, "]") + 2, strlen(req.RemoteAddr)), ":") && !contains(substr(req.RemoteAddr, indexof(req.RemoteAddr, "]") + 2, strlen(req.RemoteAddr)), "[") && !contains(substr(req.RemoteAddr, indexof(req.RemoteAddr, "]") + 2, strlen(req.RemoteAddr)), "]") ==> result2 == nil && result0 == substr(req.RemoteAddr, 1, indexof(req.RemoteAddr, "]") - 1)
 //@   ensures empty_address_refused: req.RemoteAddr == "" ==> result2 != nil
+//@   ensures address_without_port_is_still_a_source: !contains(req.RemoteAddr, ":") && req.RemoteAddr != "" ==> result2 == nil && result0 == req.RemoteAddr && result1 == 1
 //@   ensures token_never_empty: result2 == nil ==> result0 != ""
 
 //@ func extractHost
